@@ -1,6 +1,8 @@
 package vc
 
 import (
+	"os"
+	"go/ast"
 	"fmt"
 	"go/token"
 	"go/types"
@@ -153,6 +155,8 @@ func (c *Ctx) siteClass(ins ssa.Instruction) string {
 		return "return"
 	case *ssa.MakeSlice:
 		return "makeslice"
+	case *ssa.MakeClosure:
+		return "closure " + x.Fn.Name()
 	case *ssa.MakeChan:
 		return "makechan"
 	}
@@ -193,6 +197,120 @@ func (c *Ctx) calleeName(call *ssa.CallCommon) string {
 // ---------------------------------------------------------------------------
 // Obligations
 // ---------------------------------------------------------------------------
+
+// buildGoalQuery: the query refuting `goal`. Leading universal quantifiers and implication
+// antecedents of the goal are peeled off (bound variables become fresh constants, antecedents
+// assumptions): logically the same query, but the solvers instantiate far better.
+func (c *Ctx) buildGoalQuery(st *State, goal Term) string {
+	var decls, assumes []string
+	g := strings.TrimSpace(goal.S)
+	for depth := 0; depth < 8; depth++ {
+		if strings.HasPrefix(g, "(forall (") {
+			bl, rest := splitSexpr(g[len("(forall "):])
+			body, tail := splitSexpr(rest)
+			if bl == "" || body == "" || strings.TrimSpace(tail) != ")" || strings.HasPrefix(strings.TrimSpace(body), "(!") {
+				break
+			}
+			// binder list: ((n S) (m T))
+			inner := strings.TrimSpace(bl[1 : len(bl)-1])
+			for inner != "" {
+				one, r := splitSexpr(inner)
+				if one == "" {
+					break
+				}
+				decls = append(decls, "(declare-const "+one[1:len(one)-1]+")")
+				inner = strings.TrimSpace(r)
+			}
+			g = strings.TrimSpace(body)
+			continue
+		}
+		if strings.HasPrefix(g, "(=> ") {
+			a, rest := splitSexpr(g[len("(=> "):])
+			b, tail := splitSexpr(rest)
+			if a == "" || b == "" || strings.TrimSpace(tail) != ")" {
+				break
+			}
+			assumes = append(assumes, a)
+			g = strings.TrimSpace(b)
+			continue
+		}
+		break
+	}
+	if len(decls) == 0 && len(assumes) == 0 {
+		return c.buildQuery(st, Not(goal))
+	}
+	q := c.buildQueryOpt(st, True, false)
+	var b strings.Builder
+	b.WriteString(q)
+	for _, d := range decls {
+		b.WriteString(d)
+		b.WriteByte('\n')
+	}
+	for _, a := range assumes {
+		b.WriteString("(assert " + a + ")\n")
+	}
+	b.WriteString("(assert (not " + g + "))\n")
+	return b.String()
+}
+
+// splitSexpr returns the first s-expression (or atom) of s and the rest.
+func splitSexpr(s string) (string, string) {
+	s = strings.TrimLeft(s, " \n\t")
+	if s == "" {
+		return "", ""
+	}
+	if s[0] != '(' {
+		if s[0] == '"' {
+			j := 1
+			for j < len(s) {
+				if s[j] == '"' {
+					if j+1 < len(s) && s[j+1] == '"' {
+						j += 2
+						continue
+					}
+					break
+				}
+				j++
+			}
+			if j >= len(s) {
+				return "", ""
+			}
+			return s[:j+1], s[j+1:]
+		}
+		j := strings.IndexAny(s, " \n\t()")
+		if j < 0 {
+			return s, ""
+		}
+		return s[:j], s[j:]
+	}
+	depth := 0
+	inStr := false
+	for j := 0; j < len(s); j++ {
+		ch := s[j]
+		if inStr {
+			if ch == '"' {
+				if j+1 < len(s) && s[j+1] == '"' {
+					j++
+					continue
+				}
+				inStr = false
+			}
+			continue
+		}
+		switch ch {
+		case '"':
+			inStr = true
+		case '(':
+			depth++
+		case ')':
+			depth--
+			if depth == 0 {
+				return s[:j+1], s[j+1:]
+			}
+		}
+	}
+	return "", ""
+}
 
 func (c *Ctx) buildQuery(st *State, negGoal Term) string {
 	return c.buildQueryOpt(st, negGoal, false)
@@ -277,7 +395,7 @@ func (c *Ctx) emit(st *State, fr *Frame, ins ssa.Instruction, kind, sub string, 
 	if cover {
 		o.Query = c.buildQueryOpt(st, goal, true)
 	} else {
-		o.Query = c.buildQuery(st, Not(goal))
+		o.Query = c.buildGoalQuery(st, goal)
 	}
 	if run.entrySt != nil {
 		o.ModelVars = run.modelVars
@@ -624,6 +742,14 @@ func (c *Ctx) havocLoop(st *State, fr *Frame, head *ssa.BasicBlock) {
 			c.summarizeInstr(ws, fr.fn, ins, 0, body)
 		}
 	}
+	if os.Getenv("GOVC_DEBUG_LOOP") != "" {
+		var fs []string
+		for f := range ws.fams {
+			fs = append(fs, f)
+		}
+		sort.Strings(fs)
+		fmt.Fprintf(os.Stderr, "loop havoc in %s (head %s, %d blocks): top=%v %v\n", fr.fn.Name(), head.String(), len(body), ws.top, fs)
+	}
 	c.applyHavoc(st, fr, ws, body)
 	// range iterators advanced inside the loop
 	for b := range body {
@@ -693,6 +819,13 @@ func (c *Ctx) VerifyFunction(key string) (*FuncReport, error) {
 	st.arrays[famWg] = ConstArray(ArraySort(SInt, SInt), IntLit(0))
 	st.arrays["TokHeld"] = ConstArray(ArraySort(SInt, SInt), IntLit(0))
 	st.arrays["Waited"] = ConstArray(ArraySort(SInt, SBool), False)
+	st.arrays["SentNow"] = ConstArray(ArraySort(SInt, SBool), False)
+	// a ghost that is only ever changed by `set` statements is false for objects that do not exist yet
+	c.assumeSettableGhostsFresh(st, fn)
+	// every object that exists at entry may be shared with other goroutines
+	st.arrays["Published"] = c.Arr(st, famAlloc, ArraySort(SInt, SBool))
+	c.famSorts["Published"] = ArraySort(SInt, SBool)
+	c.famSorts["SentNow"] = ArraySort(SInt, SBool)
 	c.famSorts[famWg], c.famSorts["TokHeld"], c.famSorts["Waited"] = ArraySort(SInt, SInt), ArraySort(SInt, SInt), ArraySort(SInt, SBool)
 	// assumed facts about package-level variables of dependencies (extern spec `axiom` lines)
 	{
@@ -717,6 +850,17 @@ func (c *Ctx) VerifyFunction(key string) (*FuncReport, error) {
 			have[fmt.Sprintf("%s#%d", si.class, si.ord)] = true
 		}
 		for k := range ct.SiteAsserts {
+			if strings.HasSuffix(k, "#*") {
+				okc := false
+				for _, si := range c.sitesOf(fn) {
+					if si.class+"#*" == k {
+						okc = true
+					}
+				}
+				if okc {
+					continue
+				}
+			}
 			if !have[k] {
 				return nil, fmt.Errorf("CONTRACT-ERROR %s: function %s has no instruction site %q", ct.File, key, k)
 			}
@@ -781,6 +925,28 @@ func (c *Ctx) VerifyFunction(key string) (*FuncReport, error) {
 				return nil, fmt.Errorf("CONTRACT-ERROR %s: %v", r.Line, err)
 			}
 			st.Assume(t)
+		}
+		for _, r := range ct.Captures {
+			t, err := c.evalBool(env, r.Expr)
+			if err != nil {
+				return nil, fmt.Errorf("CONTRACT-ERROR %s: %v", r.Line, err)
+			}
+			st.Assume(t)
+		}
+		if base, err := c.baseContract(ct); err != nil {
+			return nil, fmt.Errorf("CONTRACT-ERROR %s: %s: %v", ct.File, key, err)
+		} else if base != nil {
+			if d := len(fn.Params) - len(base.Params); d != 0 && d != 1 {
+				return nil, fmt.Errorf("CONTRACT-ERROR %s: %s implements a contract with %d parameters but has %d", ct.File, key, len(base.Params), len(fn.Params))
+			}
+			benv := c.baseEnv(env, base, fn)
+			for _, r := range base.Requires {
+				t, err := c.evalBool(benv, r.Expr)
+				if err != nil {
+					return nil, fmt.Errorf("CONTRACT-ERROR %s (implemented by %s): %v", r.Line, key, err)
+				}
+				st.Assume(t)
+			}
 		}
 		if ct.Decreases != nil {
 			for _, d := range ct.DecreasesList {
@@ -871,6 +1037,21 @@ func (c *Ctx) checkPost(o outcome, fn *ssa.Function, ct *Contract, fr0 *Frame) {
 			c.emit(st, nil, nil, "post", label+" outside-known-finding", Or(t, rt), e.Text+"  ||  [known finding] "+resid, false)
 		}
 	}
+	if base, err := c.baseContract(ct); err == nil && base != nil && ct.Opts["implements"] != "" {
+		benv := c.baseEnv(env, base, fn)
+		for i, e := range base.Ensures {
+			t, err := c.evalGoal(benv, e.Expr)
+			if err != nil {
+				c.Errorf("CONTRACT-ERROR %s: %v", e.Line, err)
+				continue
+			}
+			label := e.Label
+			if label == "" {
+				label = fmt.Sprintf("ensures.%d", i+1)
+			}
+			c.emit(st, nil, nil, "post", "implements "+label, t, "[implemented contract] "+e.Text, false)
+		}
+	}
 	if ct.HasModifies && !ct.Extern {
 		c.checkFrame(st, fn, ct, env)
 	}
@@ -959,7 +1140,7 @@ func (c *Ctx) checkFrame(st *State, fn *ssa.Function, ct *Contract, env *specEnv
 	}
 	ws := c.funcSummary(fn, 0)
 	if ws.top {
-		c.emit(st, nil, nil, "frame", "unknown-effects", False, "function with a modifies clause calls code whose effects are unknown", false)
+		c.emit(st, nil, nil, "frame", "unknown-effects", False, "function with a modifies clause calls code whose effects are unknown ("+ws.why+")", false)
 		return
 	}
 	entryAlloc := c.cur.entryAlloc
@@ -974,7 +1155,7 @@ func (c *Ctx) checkFrame(st *State, fn *ssa.Function, ct *Contract, env *specEnv
 			// only objects allocated by this very call are written (by construction of the summary)
 			continue
 		}
-		if fam == famAlloc || fam == famHeld || fam == famWg || fam == famChLen || fam == famChClosed || fam == famChCap || fam == famCtxDone || fam == famAtomicBool || fam == "TokHeld" || fam == "Waited" {
+		if fam == famAlloc || fam == famHeld || fam == famWg || fam == famChLen || fam == famChClosed || fam == famChCap || fam == famCtxDone || fam == famAtomicBool || fam == "TokHeld" || fam == "Waited" || fam == "SentNow" || fam == "Published" || fam == famMapLen {
 			continue
 		}
 		cur, ok1 := st.arrays[fam]
@@ -1024,6 +1205,32 @@ func (c *Ctx) bindLoopVars(env *specEnv, fr *Frame, head *ssa.BasicBlock) {
 			// a loop-carried source variable: at the loop head its value is the phi
 			env.vars[phi.Comment] = specVal{t: t, typ: phi.Type()}
 		}
+	}
+	// `outeridx`: the hidden index of the nearest enclosing slice-range loop (index of its last
+	// completed iteration; the iteration in progress is outeridx+1)
+	var best *ssa.BasicBlock
+	var bestT Term
+	for _, b := range head.Parent().Blocks {
+		if b == head || !b.Dominates(head) {
+			continue
+		}
+		for _, ins := range b.Instrs {
+			phi, ok := ins.(*ssa.Phi)
+			if !ok {
+				break
+			}
+			if phi.Comment != "rangeindex" {
+				continue
+			}
+			if t, ok := fr.regs[phi].(Term); ok {
+				if best == nil || best.Dominates(b) {
+					best, bestT = b, t
+				}
+			}
+		}
+	}
+	if best != nil {
+		env.vars["outeridx"] = specVal{t: bestT, typ: tInt}
 	}
 }
 
@@ -1111,15 +1318,58 @@ func (c *Ctx) checkSiteAsserts(st *State, fr *Frame, ins ssa.Instruction) {
 	if !ok {
 		return
 	}
+	for _, nm := range ct.SiteSnaps[fmt.Sprintf("%s#%d", si.class, si.ord)] {
+		snap := make(map[string]Term, len(st.arrays))
+		for k, v := range st.arrays {
+			snap[k] = v
+		}
+		if st.snaps == nil {
+			st.snaps = map[string]map[string]Term{}
+		}
+		st.snaps[nm] = snap
+		ct.siteSeen(fmt.Sprintf("%s#%d", si.class, si.ord))
+	}
+	for _, cl := range ct.SiteSets[fmt.Sprintf("%s#%d", si.class, si.ord)] {
+		ct.siteSeen(fmt.Sprintf("%s#%d", si.class, si.ord))
+		if err := c.ghostSet(c.envForFrame(st, fr), cl.Expr); err != nil {
+			c.Errorf("CONTRACT-ERROR %s: %v", cl.Line, err)
+		}
+	}
 	cls := ct.SiteAsserts[fmt.Sprintf("%s#%d", si.class, si.ord)]
-	if len(cls) == 0 {
+	wild := ct.SiteAsserts[si.class+"#*"]
+	if len(cls) == 0 && len(wild) == 0 {
 		return
 	}
-	ct.siteSeen(fmt.Sprintf("%s#%d", si.class, si.ord))
+	if len(cls) > 0 {
+		ct.siteSeen(fmt.Sprintf("%s#%d", si.class, si.ord))
+	}
+	if len(wild) > 0 {
+		ct.siteSeen(si.class + "#*")
+	}
+	if call, ok := ins.(*ssa.Call); ok && fr.depth == 0 && strings.HasPrefix(si.class, "call ") {
+		// the assertions may speak about the arguments of the call they guard
+		k := fmt.Sprintf("%s#%d", strings.TrimPrefix(si.class, "call "), si.ord)
+		var args []Value
+		for _, a := range call.Call.Args {
+			args = append(args, c.reg(fr, a, st))
+		}
+		st.callArgs[k] = args
+		if call.Call.IsInvoke() {
+			st.callArgs["recv:"+k] = []Value{c.reg(fr, call.Call.Value, st)}
+		}
+	}
 	env := c.envForFrame(st, fr)
-	for i, cl := range cls {
+	for i, cl := range append(append([]Clause(nil), cls...), wild...) {
+		isWild := i >= len(cls)
+		savedErrs := len(c.Errors)
 		t, err := c.evalGoal(env, cl.Expr)
 		if err != nil {
+			if isWild && strings.Contains(err.Error(), "unknown identifier") && c.isLocalName(fr.fn, err.Error()) {
+				// an assertion for every site of a class does not apply where one of the local
+				// variables it mentions is not declared yet
+				c.Errors = c.Errors[:savedErrs]
+				continue
+			}
 			c.Errorf("CONTRACT-ERROR %s: %v", cl.Line, err)
 			continue
 		}
@@ -1129,4 +1379,129 @@ func (c *Ctx) checkSiteAsserts(st *State, fr *Frame, ins ssa.Instruction) {
 		}
 		c.Oblige(st, fr, ins, "site", label, t, cl.Text)
 	}
+}
+
+// isLocalName: does the "unknown identifier" error name a source-level local variable of fn?
+func (c *Ctx) isLocalName(fn *ssa.Function, msg string) bool {
+	i := strings.Index(msg, "unknown identifier \"")
+	if i < 0 {
+		return false
+	}
+	name := msg[i+len("unknown identifier \""):]
+	if j := strings.IndexByte(name, '"'); j >= 0 {
+		name = name[:j]
+	}
+	for _, b := range fn.Blocks {
+		for _, ins := range b.Instrs {
+			if d, ok := ins.(*ssa.DebugRef); ok {
+				if id, ok := d.Expr.(*ast.Ident); ok && id.Name == name {
+					return true
+				}
+			}
+		}
+	}
+	return false
+}
+
+// ghostSet executes the ghost update `g(args) := true` for a boolean ghost g. Ghost sets are
+// the only updates of such a ghost outside of `modifies ghost g` clauses, so a ghost that no
+// contract lists as modified only ever grows.
+func (c *Ctx) ghostSet(env *specEnv, e *SNode) error {
+	if e.Op != "call" {
+		return fmt.Errorf("set expects a ghost application g(args)")
+	}
+	gd, ok := c.Ghosts[e.Text]
+	if !ok {
+		return fmt.Errorf("set: %s is not a ghost", e.Text)
+	}
+	pkg := env.pkg
+	if p := c.LemmaPkg["ghost:"+gd.Name]; p != nil {
+		pkg = p.Types
+	}
+	fam, sort, pts, rt, err := c.ghostFam(gd, pkg)
+	if err != nil {
+		return err
+	}
+	if c.Reg.SortOf(rt) != SBool {
+		return fmt.Errorf("set: ghost %s is not boolean", gd.Name)
+	}
+	if len(e.Args) != len(pts) {
+		return fmt.Errorf("ghost %s expects %d arguments", gd.Name, len(pts))
+	}
+	var idx []Term
+	for i, a := range e.Args {
+		v, err := c.evalSpec(env, a)
+		if err != nil {
+			return err
+		}
+		idx = append(idx, c.coerce(env.st, v, pts[i]))
+	}
+	cur := c.Arr(env.st, fam, sort)
+	// rebuild the curried array bottom-up
+	levels := []Term{cur}
+	for i := 0; i < len(idx)-1; i++ {
+		levels = append(levels, Select(levels[i], idx[i]))
+	}
+	nv := True
+	for i := len(idx) - 1; i >= 0; i-- {
+		nv = Store(levels[i], idx[i], nv)
+	}
+	c.SetArr(env.st, fam, nv)
+	return nil
+}
+
+func (c *Ctx) assumeSettableGhostsFresh(st *State, fn *ssa.Function) {
+	if c.settable == nil {
+		c.settable = map[string]bool{}
+		for _, ct := range c.Contracts {
+			for _, cls := range ct.SiteSets {
+				for _, cl := range cls {
+					if cl.Expr != nil && cl.Expr.Op == "call" {
+						c.settable[cl.Expr.Text] = true
+					}
+				}
+			}
+		}
+	}
+	for _, name := range sortedKeys(c.settable) {
+		gd := c.Ghosts[name]
+		if gd == nil || len(gd.Params) == 0 {
+			continue
+		}
+		pkg := c.typesPkgOf(fn)
+		if p := c.LemmaPkg["ghost:"+gd.Name]; p != nil {
+			pkg = p.Types
+		}
+		fam, sort, pts, rt, err := c.ghostFam(gd, pkg)
+		if err != nil || c.Reg.SortOf(rt) != SBool || c.Reg.SortOf(pts[0]) != SInt {
+			continue
+		}
+		if _, isPtr := pts[0].Underlying().(*types.Pointer); !isPtr {
+			continue
+		}
+		g := c.Arr(st, fam, sort)
+		al := c.Arr(st, famAlloc, ArraySort(SInt, SBool))
+		var binders []string
+		cur := g.S
+		for i, pt := range pts {
+			v := c.Reg.Fresh("q")
+			binders = append(binders, fmt.Sprintf("(%s %s)", v, c.Reg.SortOf(pt)))
+			cur = fmt.Sprintf("(select %s %s)", cur, v)
+			if i == 0 {
+				defer func(v string) {}(v)
+			}
+		}
+		first := strings.Fields(strings.Trim(binders[0], "()"))[0]
+		st.Assume(T(SBool, "(forall (%s) (=> (not (select %s %s)) (not %s)))", strings.Join(binders, " "), al.S, first, cur))
+	}
+}
+
+// SiteList lists the instruction sites of fn (for writing site assertions).
+func (c *Ctx) SiteList(fn *ssa.Function) []string {
+	var out []string
+	for ins, si := range c.sitesOf(fn) {
+		out = append(out, fmt.Sprintf("%-40s line %d", fmt.Sprintf("%s#%d", si.class, si.ord), c.pos(ins.Pos()).Line))
+	}
+	sort.Strings(out)
+	return out
 }
